@@ -113,12 +113,24 @@ func isolationCase(c *Ctx) {
 	structs := make([]*isoStruct, n)
 	seeds := make([]int64, n)
 	kindSet := map[string]bool{}
+	sameLong := c.rng.Intn(3) == 0
+	longIdx := 0
+	for j, e := range eqPool {
+		if len(e) > len(eqPool[longIdx]) {
+			longIdx = j
+		}
+	}
 	for i := range structs {
 		k := kinds[c.rng.Intn(len(kinds))]
 		kk := k
 		ops := make([]int, 2+c.rng.Intn(6))
 		for j := range ops {
 			ops[j] = c.rng.Intn(40)
+		}
+		if sameLong {
+			// every structure of this case also receives one and the same long element, twice
+			ops[c.rng.Intn(len(ops))] = longIdx
+			ops[c.rng.Intn(len(ops))] = longIdx
 		}
 		structs[i] = &isoStruct{kind: &kk, ops: ops}
 		seeds[i] = c.rng.Int63()
